@@ -116,7 +116,7 @@ def getChunks (vars : Vars) (chunks : List Bytes) : Val :=
   | name :: sub =>
     match getVar vars name with
     | none => .nil
-    | some (.bytes b) => if b.isEmpty then .nil else .bytes b
+    | some (.bytes b) => .bytes b            -- (repair: an EMPTY bytes variable is a value too, not "unset")
     | some (.cntr n) => .int n
     | some (.ins v k) => insGet k v sub
 
@@ -165,7 +165,7 @@ def cmpCore (vars : Vars) (path : Bytes) (o : Op) (right : Bytes) : Bool :=
     match getVar vars name with
     | none => false
     | some (.cntr n) => ((Val.int n).cmpLit o right).getD false
-    | some (.bytes b) => if b.isEmpty then false else ((Val.bytes b).cmpLit o right).getD false
+    | some (.bytes b) => ((Val.bytes b).cmpLit o right).getD false
     | some (.ins v k) => (insCompare k v sub o right).getD false
 
 /-- The error `Ctx.cmp` leaves in `ctx.Err` (`ctx.Err = v.ins.Compare(...)`): a function of the variables only. -/
@@ -245,6 +245,9 @@ def emptyCheck : Val → Bool
   | .str s => s.isEmpty
   | .bytes s => s.isEmpty
   | .strs xs => xs.isEmpty
+  -- (repair: containers of types no registered helper knows — a map without entries, a slice of structs without elements; nil ones are `.nil`)
+  | .obj fs => fs.isEmpty
+  | .list xs => xs.isEmpty
   | _ => false
 
 def iterate (f : Bytes → Bytes) : Nat → Bytes → Bytes
